@@ -95,8 +95,7 @@ def make_target(cfg, variant):
     if variant == "nothing":
         # the flow values are None, 0, "", {}, [], False, (0, {}), 0.0, (); compared by repr
         fr, el = fl.build_fr(cfg)
-        return (fr, el, lambda res: [repr({"i": r["i"], "p": [fl.nothing(x) for x in r["p"]]}) for r in res],
-                lambda v: repr(fl.norm(v)))
+        return fr, el, None, lambda v: repr(fl.norm(v))      # expected results are mapped in _drive (rotation)
     if variant == "falsyres":
         # the results of the wrapped element are such objects
         fr, el = fl.build_fr(cfg, el=fl.EFalsyResults(cfg["m"]))
@@ -119,7 +118,9 @@ COMP = {"nothing": "FillRequest(falsy-values)", "falsyres": "FillRequest(falsy-r
 
 
 def _drive(guard, comp, agg, cfg, h, variant, record, obj, el, proj, nrm):
-    vm = fl.nothing if variant == "nothing" else None
+    # the odd values are rotated from schedule to schedule: every one of them occurs at every position
+    rot = sum(ord(c) for c in "".join(o["op"] for o in h)) + cfg["n"] + 2 * cfg["bufIn"] + 4 * cfg["reset"]
+    vm = (lambda i: fl.nothing(i + rot)) if variant == "nothing" else None
     k = 0
     seen = 0
     sched = ""
@@ -157,7 +158,8 @@ def _drive(guard, comp, agg, cfg, h, variant, record, obj, el, proj, nrm):
                                                            "values_filled": k})
             return False
         if call == "request" and not cfg["yor"]:
-            exp = proj(op["res"])
+            exp = proj(op["res"]) if vm is None else \
+                [repr({"i": r["i"], "p": [vm(x) for x in r["p"]]}) for r in op["res"]]
             if val != exp:
                 agg.fail(comp, call, "results", cfg, sched, {"variant": variant, "expected": exp, "observed": val})
                 return False
@@ -192,7 +194,8 @@ def variants_for(cfg, thorough):
         vs.append("aslist")
     if cfg["kind"] == "fc" and cfg["m"] == 1:
         vs += ["sum", "store", "store1"]
-    if cfg["kind"] == "fr" and (cfg["m"] == 2 or (thorough and cfg["m"] > 0)):
+    if (cfg["kind"] == "fr" and cfg["m"] == 2) or (cfg["kind"] in ("fc", "frc") and cfg["m"] == 1) or \
+            (thorough and cfg["m"] > 0 and cfg["kind"] in ("fr", "fc", "frc")):
         vs.append("nothing")
     if cfg["kind"] == "fr" and (cfg["m"] == 1 or (thorough and cfg["m"] > 0)):
         vs.append("falsyres")
@@ -200,6 +203,25 @@ def variants_for(cfg, thorough):
 
 
 # ------------------------------------------------------------------ whole runs
+def odd_values(k):
+    """None and one more odd value (chosen by k) for a run with an odd value at one position."""
+    others = [x for x in fl.NOTHINGS if x is not None]
+    return [None, others[k % len(others)]]
+
+
+def run_with_odd(make, n_values, pos, value, project=None):
+    """Run over 0..N-1 with *value* at position *pos*; results as repr strings."""
+    def go():
+        obj = make()
+        flow = iter([value if i == pos else i for i in range(n_values)])
+        return [repr(fl.norm(x) if project is None else project(x)) for x in obj.run(flow)]
+    return fl.guarded(go, 6000 + 600 * n_values)
+
+
+def odd_expected(out, pos, value):
+    return [repr({"i": r["i"], "p": [value if x == pos else x for x in r["p"]]}) for r in out]
+
+
 def flow_of(n_values, src="iter"):
     return {"iter": lambda: iter(range(n_values)), "list": lambda: list(range(n_values)),
             "tuple": lambda: tuple(range(n_values))}[src]()
@@ -267,6 +289,25 @@ def replay_run(ctx, agg, rec, thorough):
     import lena.math
     cfg, n_values, src = rec["cfg"], rec["N"], rec.get("src", "iter")
     ok = True
+    pos = rec.get("odd", -1)
+    if pos >= 0:
+        # an odd value (None, 0, "", (), [], False, StopIteration, nan, ...) at one position of the flow
+        import lena.core
+        for value in odd_values(rec.get("_k", 0) + pos):
+            name = "FillRequest(odd-value)"
+            if agg.skip(name, cfg):
+                continue
+            label = "N=%d:%s-at-%d" % (n_values, "nan" if value != value else repr(value), pos)
+            st, val = run_with_odd(lambda: fl.build_fr(cfg)[0], n_values, pos, value)
+            ok &= check_whole(agg, name, "run", cfg, label, st, val, odd_expected(rec["out"], pos, value))
+            ctx.case(["run-odd", cfg, n_values, pos, repr(value)])
+            if cfg["kind"] in ("fc", "fr", "frc") and not cfg["yor"]:
+                bs = cfg["n"] + 1
+                st, val = run_with_odd(lambda: lena.core.Split([fl.build_fr(cfg)[0]], bufsize=bs), n_values, pos, value)
+                ok &= check_whole(agg, "Split[odd-value]", "run", cfg, label + ":bs=%d" % bs, st, val,
+                                  odd_expected(rec["out"], pos, value))
+                ctx.case(["split-odd", cfg, n_values, pos, repr(value)])
+        return ok
     tag = "N=%d" % n_values + ("" if src == "iter" else ":flow-is-a-" + src)
     # FillRequest.run
     if not agg.skip("FillRequest", cfg):
@@ -519,6 +560,8 @@ def run(ctx):
     ctx.sample({"spec_behaviour_run": next(r for r in recs[len(recs) // 3:] if r["t"] == "run" and r["split"])})
     global _THOROUGH
     _THOROUGH = ctx.thorough
+    for j, rec in enumerate(recs):
+        rec["_k"] = j
     for counts, fails, per_class, skipped in fl.parallel_map(_replay_chunk, recs, fl.nprocs(ctx.thorough)):
         fl.merge_counts(ctx, counts)
         for k, v in fails.items():
